@@ -133,6 +133,21 @@ def _servers(s):
     raise ValueError(s)
 
 
+def _spf_hi(srv, ind):
+    return -srv.id_number
+
+
+def _spf_idle(srv, ind):
+    return (srv.busy_time, srv.id_number)
+
+
+def _spf_cls(srv, ind):
+    return ((srv.id_number + int(str(ind.customer_class)[1:])) % 2, srv.id_number)
+
+
+# server priority functions (cfg['spf'], per node): which free server a customer takes; deterministic, no draws
+SPF = {'hi': _spf_hi, 'idle': _spf_idle, 'cls': _spf_cls}
+
 DISC = {'FIFO': ciw.disciplines.FIFO, 'LIFO': ciw.disciplines.LIFO, 'SIRO': ciw.disciplines.SIRO}
 
 
@@ -179,6 +194,8 @@ def make_network(cfg):
                        for j in range(n)] for c in range(k)}
     if cfg.get('ps_thr') is not None:
         kw['ps_thresholds'] = list(cfg['ps_thr'])
+    if cfg.get('spf') is not None:
+        kw['server_priority_functions'] = [(SPF[x] if x is not None else None) for x in cfg['spf']]
     return ciw.create_network(**kw)
 
 
